@@ -81,7 +81,7 @@ def main():
             assert rca == 0, ea
         os.makedirs(dst, exist_ok=True)
         for f in ("patch.diff", "demo.py", "notes.md"):
-            if os.path.exists(os.path.join(a.src, f)):
+            if os.path.exists(os.path.join(a.src, f)) and os.path.abspath(os.path.join(a.src, f)) != os.path.abspath(os.path.join(dst, f)):
                 shutil.copy(os.path.join(a.src, f), os.path.join(dst, f))
         verdicts = meta.get("checks", {})
         for c in a.checks or [a.prop]:
